@@ -87,20 +87,28 @@ fuzz_target!(|data: &[u8]| {
     if split.len() < 2 {
         return;
     }
-    // K02: a token that follows `from` or a comma and is not the last token of its shell word
-    let mut prev = String::new();
-    for word in &split {
-        let ws: Vec<&str> = word.split(' ').collect();
-        for (j, w) in ws.iter().enumerate() {
-            let after_root_intro = prev.eq_ignore_ascii_case("from") || prev.ends_with(',');
-            if after_root_intro && j + 1 < ws.len() {
-                return;
+    // K02 (open finding): with several arguments the lexer lets a search-root word run to the end of its shell
+    // word. Its effect is exactly a root lexem (RawString right after FROM or a comma) that contains a blank, comma
+    // or bracket - impossible in one-argument mode. Such inputs are skipped.
+    {
+        let mut lx = lexer::Lexer::new(split.clone());
+        let mut prev: Option<lexer::Lexem> = None;
+        while let Some(l) = lx.next_lexem() {
+            if let lexer::Lexem::RawString(ref s) = l {
+                if matches!(prev, Some(lexer::Lexem::From) | Some(lexer::Lexem::Comma))
+                    && s.contains([' ', ',', '(', ')', '{', '}'])
+                {
+                    return;
+                }
             }
-            // a comma glued to a word inside a multi-token shell word has the same effect
-            prev = w.to_string();
+            prev = Some(l);
         }
     }
     let a = format!("{:?}", parser::Parser::new().parse(one, false));
+    // the property is about valid queries: a text that is rejected as one argument is outside its domain
+    if !a.starts_with("Ok(") {
+        return;
+    }
     let b = format!("{:?}", parser::Parser::new().parse(split.clone(), false));
     if a != b {
         panic!("split invariance violated: {:?} vs one argument", split);
